@@ -246,6 +246,92 @@ def spawn_inside(start: int, end: int, t0: int, when: int, n: int) -> bool:
     return hx.end(m.timestep == t0 + n)
 
 
+class Nester(System):
+    """steps ANOTHER model from inside its own execute() (nested simulations)"""
+    __slots__ = ['inner']
+
+    def execute(self):
+        self.model.log.append((self.id, self.model.systems.timestep))
+        self.inner.execute()
+
+
+class Raiser(System):
+    __slots__ = ['when']
+
+    def execute(self):
+        self.model.log.append((self.id, self.model.systems.timestep))
+        if self.model.systems.timestep == self.when:
+            self.when = None
+            raise RuntimeError("user system failed")
+
+
+def nested_models(s0: int, e0: int, t0: int, pn: int) -> bool:
+    """
+    post: _
+    """
+    # a system of the outer model advances an inner model in every timestep: both models keep exact windows and clocks
+    hx.begin()
+    steps, f = hx.P['steps'], hx.P['f']
+    outer, inner = LogModel(), LogModel()
+    outer.systems.timestep = t0
+    inner.systems.add_system(S("i0", inner))
+    inner.systems.add_system(S("i1", inner, priority=-1))
+    nest = Nester("nest", outer, priority=pn, start=t0, end=t0 + 1000)
+    nest.inner = inner
+    outer.systems.add_system(S("hi", outer, priority=1, start=t0, end=t0 + 1000))
+    outer.systems.add_system(nest)
+    outer.systems.add_system(S("w", outer, priority=0, frequency=f, start=s0, end=e0))
+    outer.systems.add_system(S("lo", outer, priority=-1, start=t0, end=t0 + 1000))
+    outer.execute(steps)
+    for sid in ("hi", "nest", "lo"):
+        if [t for (i, t) in outer.log if i == sid] != [t0 + k for k in range(steps)]:
+            return hx.end(hx.fail("an outer system was skipped or repeated while another model was stepped from inside",
+                                  system=sid, log=outer.log))
+    expw = [t0 + k for k in range(steps) if s0 <= t0 + k <= e0 and (t0 + k - s0) % f == 0]
+    if len(expw) > 0:
+        hx.reach('window_runs')
+    if [t for (i, t) in outer.log if i == "w"] != expw:
+        return hx.end(hx.fail("windowed outer system", got=[t for (i, t) in outer.log if i == "w"], exp=expw))
+    if inner.log != [(i, k) for k in range(steps) for i in ("i0", "i1")]:
+        return hx.end(hx.fail("inner model", log=inner.log))
+    return hx.end(outer.timestep == t0 + steps and inner.timestep == steps)
+
+
+def after_exception(t0: int, when: int) -> bool:
+    """
+    pre: 0 <= when < hx.P['steps']
+    post: _
+    """
+    # a user system raises once; the caller handles the error and keeps using the model: every later request advances
+    # the clock by exactly one and runs the due systems
+    hx.begin()
+    steps = hx.P['steps']
+    m = LogModel()
+    m.systems.timestep = t0
+    r = Raiser("r", m, priority=5, start=t0, end=t0 + 1000)     # first in the queue: nothing ran before it in the failed step
+    r.when = t0 + when
+    m.systems.add_system(r)
+    m.systems.add_system(S("s", m, start=t0, end=t0 + 1000))
+    done = 0
+    failed = False
+    while done < steps + 1:
+        before = m.timestep
+        try:
+            m.execute()
+        except RuntimeError:
+            failed = True
+            hx.reach('raised')
+            done += 1
+            continue                       # (whether the failed request itself advanced the clock is not claimed)
+        if m.timestep != before + 1:
+            return hx.end(hx.fail("a request after a handled error did not advance the clock by one", before=before,
+                                  after=m.timestep, error_was_raised=failed))
+        if ("s", before) not in m.log:
+            return hx.end(hx.fail("a due system did not run in a step after a handled error", timestep=before))
+        done += 1
+    return hx.end(failed)
+
+
 _BAD = [True, False, 1.0, 2.5, "1", None, [1], (1,)]
 
 
@@ -316,5 +402,8 @@ def obligations(tier):
         X("spawn_inside", spawn_inside, parts=[{"N": N, "f": f, "prio": pr} for f, pr in ((1, 0), (2, 5), (1, -3))],
           labels=("child_runs_later",), timeout=900, encoded=enc + (SystemManager.add_system,),
           bounds={"n": "1..%d" % N, "child priority": "0, 5, -3 (spawner 0)"}),
+        X("nested_models", nested_models, parts=[{"steps": 2, "f": 1}, {"steps": 3, "f": 2}], labels=("window_runs",), timeout=900,
+          encoded=enc, bounds={"steps": "2..3", "nesting system priority, window, timestep": "all ints"}),
+        X("after_exception", after_exception, parts=[{"steps": 3}], labels=("raised",), timeout=600, encoded=enc),
         X("reject_n", reject_n, labels=("nonpositive", "nonint"), timeout=120, encoded=(Model.execute,)),
     ]
